@@ -342,3 +342,141 @@ Proof.
   destruct (format_c toks m) as [r|] eqn:Ef; [|discriminate]. intros H. apply andb_prop in H as [H1 H2].
   apply beqb_eq in H1. subst r. apply Z.leb_le in H2. exists toks. split; [reflexivity|]. split; [exact Ef|exact H2].
 Qed.
+
+(* ---- null pointers: file / function / category == nullptr ---- *)
+Lemma env_of_raw_denull r : env_of_raw (denull r) = env_of_raw r.
+Proof. destruct r as [t x f g c l tm ti pt a]. destruct f, g, c; reflexivity. Qed.
+(* a null pointer formats exactly as a pointer to the empty string, for every pattern *)
+Theorem format_raw_null_is_empty p r : format_raw_c p (denull r) = format_raw_c p r.
+Proof. unfold format_raw_c. rewrite env_of_raw_denull. reflexivity. Qed.
+(* ... and formatting is total on it *)
+Theorem format_raw_total toks r : len (cstr (r_file r)) <= INT_MAX -> len (cstr (r_func r)) <= INT_MAX - 1 ->
+  cfg_okb src_cfg = true -> fmt_bound toks (env_of_raw r) <= INT_MAX ->
+  exists out, format_c toks (env_of_raw r) = Some out /\ len out <= fmt_bound toks (env_of_raw r).
+Proof. intros Hf Hg Hc Hb. apply format_total; [split; [exact Hf|exact Hg]|exact Hc|exact Hb]. Qed.
+Lemma short_file_nil base : short_file_c base [] = Some [].
+Proof. unfold short_file_c. destruct base as [|b base']; reflexivity. Qed.
+(* every placeholder that reads one of the three pointers yields the empty string on the all-null context; every
+   other placeholder is unaffected (has a value) *)
+Theorem null_placeholders k r : cfg_okb src_cfg = true -> r_file r = None -> r_func r = None -> r_cat r = None ->
+  exists v, value_c k (env_of_raw r) = Some v /\ (is_ptr_kind k = true -> v = []).
+Proof.
+  intros Hc Hf Hg Hcat. destruct r as [t x f g c l tm ti pt a]. cbn in Hf, Hg, Hcat. subst f g c.
+  destruct k; cbn [value_c env_of_raw mfile mfunc mcat cstr SafetyDefs.text mt mline mtime mtid mptr attrs is_ptr_kind r_mt r_text r_file r_func r_cat r_line r_time r_tid r_ptr r_attrs];
+    try (eexists; split; [reflexivity|intros; try reflexivity; discriminate]).
+  - exists []. split; [apply short_file_nil|reflexivity].
+  - destruct (lookup name a); eexists; (split; [reflexivity|discriminate]).
+Qed.
+(* PrettyFormatter on the raw category pointer (null = the non-default category with the empty name) *)
+Theorem pretty_raw_total colorize maxw cw t (c : option qstr) msg :
+  maxw <= INT_MAX -> 0 <= cw <= INT_MAX -> len msg + len (cstr c) <= INT_MAX - 200 ->
+  exists out cw', pretty_c colorize maxw cw t (pretty_cat_of_ptr c) msg = Some (out, cw') /\ 0 <= cw' <= INT_MAX.
+Proof.
+  intros Hm Hcw Hl. apply pretty_total; [exact Hm|exact Hcw|].
+  destruct c as [s|]; cbn [pretty_cat_of_ptr cstr] in *; [|exact Hl].
+  destruct (beqb s s_default); [pose proof (len_nonneg s); lia|lia].
+Qed.
+
+(* ---- widths of ten and more digits: QString::toInt never wraps ---- *)
+Lemma is_digit_bounds c : is_digit c = true -> (48 <= c <= 57)%N.
+Proof. unfold is_digit. lia. Qed.
+Lemma is_digit_not_space c : is_digit c = true -> is_space c = false.
+Proof. intros H. apply is_digit_bounds in H. unfold is_space. lia. Qed.
+Lemma dec_value_mono l : forall acc, 0 <= acc -> forallb is_digit l = true -> acc <= dec_value l acc.
+Proof.
+  induction l as [|c r IH]; intros acc Ha Hd; cbn [dec_value]; [lia|].
+  cbn [forallb] in Hd. apply andb_prop in Hd as [Hc Hr]. apply is_digit_bounds in Hc.
+  specialize (IH (acc * 10 + Z.of_N (c - 48)) ltac:(lia) Hr). lia.
+Qed.
+Lemma digits_val_spec l : forall acc, 0 <= acc <= INT_MAX + 1 -> forallb is_digit l = true ->
+  digits_val l acc = if dec_value l acc <=? INT_MAX + 1 then Some (dec_value l acc) else None.
+Proof.
+  induction l as [|c r IH]; intros acc Ha Hd; cbn [dec_value digits_val].
+  - destruct (Z.leb_spec acc (INT_MAX + 1)); [reflexivity|lia].
+  - cbn [forallb] in Hd. apply andb_prop in Hd as [Hc Hr]. fold (is_digit c). rewrite Hc.
+    apply is_digit_bounds in Hc. cbn zeta.
+    destruct (Z.leb_spec (acc * 10 + Z.of_N (c - 48)) (INT_MAX + 1)) as [Hle|Hgt].
+    + apply IH; [lia|exact Hr].
+    + pose proof (dec_value_mono r (acc * 10 + Z.of_N (c - 48)) ltac:(lia) Hr).
+      destruct (Z.leb_spec (dec_value r (acc * 10 + Z.of_N (c - 48))) (INT_MAX + 1)); [lia|reflexivity].
+Qed.
+Lemma forallb_rev {X} (f : X -> bool) l : forallb f (rev l) = forallb f l.
+Proof. induction l as [|a l IH]; [reflexivity|]. cbn [rev forallb]. rewrite forallb_app, IH. cbn. rewrite andb_true_r. apply andb_comm. Qed.
+Lemma drop_space_digits l : forallb is_digit l = true -> drop_space l = l.
+Proof. destruct l as [|c r]; [reflexivity|]. cbn [forallb drop_space]. intros H. apply andb_prop in H as [H _]. rewrite (is_digit_not_space c H). reflexivity. Qed.
+Lemma trimmed_digits l : forallb is_digit l = true -> trimmed l = l.
+Proof. intros H. unfold trimmed. rewrite (drop_space_digits l H), (drop_space_digits (rev l)) by (rewrite forallb_rev; exact H). apply rev_involutive. Qed.
+(* an all-digit text is accepted iff its MATHEMATICAL value fits an int, and then that value is the result *)
+Theorem to_int_digits l : l <> [] -> forallb is_digit l = true ->
+  to_int l = if dec_value l 0 <=? INT_MAX then (dec_value l 0, true) else (0, false).
+Proof.
+  intros Hne Hd. unfold to_int. rewrite (trimmed_digits l Hd). destruct l as [|c r]; [contradiction|].
+  pose proof Hd as Hd'. cbn [forallb] in Hd'. apply andb_prop in Hd' as [Hc _]. apply is_digit_bounds in Hc.
+  destruct (N.eqb_spec c 45); [lia|]. destruct (N.eqb_spec c 43); [lia|].
+  rewrite (digits_val_spec (c :: r) 0) by (unfold INT_MAX; try lia; exact Hd).
+  pose proof (dec_value_mono (c :: r) 0 ltac:(lia) Hd) as H0.
+  destruct (Z.leb_spec (dec_value (c :: r) 0) (INT_MAX + 1)) as [H1|H1].
+  - destruct (Z.leb_spec (dec_value (c :: r) 0) INT_MAX) as [H2|H2].
+    + destruct (Z.leb_spec INT_MIN (dec_value (c :: r) 0)); [|unfold INT_MIN in *; lia]. reflexivity.
+    + destruct (Z.leb_spec INT_MIN (dec_value (c :: r) 0)); reflexivity.
+  - destruct (Z.leb_spec (dec_value (c :: r) 0) INT_MAX); [lia|reflexivity].
+Qed.
+Corollary to_int_overflow_rejected l : l <> [] -> forallb is_digit l = true -> INT_MAX < dec_value l 0 -> to_int l = (0, false).
+Proof. intros Hne Hd Hv. rewrite (to_int_digits l Hne Hd). destruct (Z.leb_spec (dec_value l 0) INT_MAX); [lia|reflexivity]. Qed.
+(* the digits are neither alignment characters nor the truncate suffix (constants read from the source) *)
+Lemma digit_not_align d : is_digit d = true -> is_anone (align_of d) = true.
+Proof.
+  intros H. apply is_digit_bounds in H. unfold align_of, src_align_left, src_align_right, src_align_center.
+  destruct (N.eqb_spec d 60); [lia|]. destruct (N.eqb_spec d 62); [lia|]. destruct (N.eqb_spec d 94); [lia|]. reflexivity.
+Qed.
+Lemma ends_with_last_digit pre ds : ds <> [] -> forallb is_digit ds = true -> ends_with (pre ++ ds) [src_trunc_suffix] = false.
+Proof.
+  intros Hne Hd. unfold ends_with. rewrite rev_app_distr. rewrite <- forallb_rev in Hd.
+  destruct (rev ds) as [|c r] eqn:E.
+  - exfalso. apply Hne. rewrite <- (rev_involutive ds), E. reflexivity.
+  - cbn [forallb] in Hd. apply andb_prop in Hd as [Hc _]. apply is_digit_bounds in Hc.
+    unfold src_trunc_suffix. cbn [rev app prefixb]. destruct (N.eqb_spec 33 c); [lia|reflexivity].
+Qed.
+(* a width text that does not fit an int is not a format spec, with or without a fill character *)
+Theorem parse_spec_overflow_rejected a ds : is_anone (align_of a) = false -> ds <> [] -> forallb is_digit ds = true ->
+  INT_MAX < dec_value ds 0 -> parse_spec_c (a :: ds) = Some None.
+Proof.
+  intros Ha Hne Hd Hv. pose proof (to_int_overflow_rejected ds Hne Hd Hv) as Hti.
+  pose proof (ends_with_last_digit [a] ds Hne Hd) as He. cbn [app] in He.
+  destruct ds as [|d ds']; [contradiction|].
+  assert (Hdd : is_digit d = true) by (cbn [forallb] in Hd; apply andb_prop in Hd; tauto).
+  pose proof (digit_not_align d Hdd) as Had.
+  unfold parse_spec_c. cbn [is_empty]. rewrite He. cbn [bind andb].
+  assert (Hlen : (2 <=? len (a :: d :: ds')) = true) by (rewrite !len_cons; pose proof (len_nonneg ds'); lia).
+  rewrite Hlen. change (at_ (a :: d :: ds') 1) with (Some d). cbn [bind]. rewrite Had. cbn [bind is_anone is_empty negb andb].
+  change (at_ (a :: d :: ds') 0) with (Some a). cbn [bind]. rewrite Ha.
+  assert (Hl1 : (len (a :: d :: ds') <=? 1) = false) by (rewrite !len_cons; pose proof (len_nonneg ds'); lia).
+  cbn [bind]. cbn beta iota. rewrite Ha. rewrite Hl1.
+  assert (Hmid : mid_c (a :: d :: ds') 1 (-1) = Some (d :: ds')).
+  { unfold mid_c. assert ((0 <=? 1) && (1 <=? len (a :: d :: ds')) = true) as -> by (rewrite !len_cons; pose proof (len_nonneg ds'); lia). reflexivity. }
+  rewrite Hmid. cbn [bind]. rewrite Hti. reflexivity.
+Qed.
+Theorem parse_spec_overflow_rejected_trunc ds : ds <> [] -> forallb is_digit ds = true ->
+  INT_MAX < dec_value ds 0 -> parse_spec_c (ds ++ [src_trunc_suffix]) = Some None.
+Proof.
+  intros Hne Hd Hv. pose proof (to_int_overflow_rejected ds Hne Hd Hv) as Hti.
+  unfold parse_spec_c.
+  assert (is_empty (ds ++ [src_trunc_suffix]) = false) as -> by (destruct ds; reflexivity).
+  assert (ends_with (ds ++ [src_trunc_suffix]) [src_trunc_suffix] = true) as ->.
+  { unfold ends_with. rewrite rev_app_distr. cbn [rev app prefixb]. rewrite N.eqb_refl. reflexivity. }
+  assert (chop_c (ds ++ [src_trunc_suffix]) 1 = Some ds) as ->.
+  { unfold chop_c. rewrite len_app. change (len [src_trunc_suffix]) with 1. pose proof (len_nonneg ds).
+    assert ((0 <=? 1) && (1 <=? len ds + 1) = true) as -> by lia.
+    replace (len ds + 1 - 1) with (len ds) by lia. unfold len. rewrite Nat2Z.id, firstn_app, Nat.sub_diag, firstn_all. cbn. rewrite app_nil_r. reflexivity. }
+  cbn [bind]. destruct ds as [|d ds']; [contradiction|]. cbn [is_empty andb].
+  assert (Hdd : is_digit d = true) by (cbn [forallb] in Hd; apply andb_prop in Hd; tauto).
+  pose proof (digit_not_align d Hdd) as Had.
+  assert (Hr1 : (if 2 <=? len (d :: ds') then do pa <- at_ (d :: ds') 1; if is_anone (align_of pa) then Some (32%N, ANone, false, 0)
+              else do f <- at_ (d :: ds') 0; Some (f, align_of pa, true, 2) else Some (32%N, ANone, false, 0)) = Some (32%N, ANone, false, 0)).
+  { destruct (Z.leb_spec 2 (len (d :: ds'))) as [H2|H2]; [|reflexivity]. destruct ds' as [|e ds'']; [cbn in H2; lia|].
+    change (at_ (d :: e :: ds'') 1) with (Some e). cbn [bind].
+    assert (is_digit e = true) as He by (cbn [forallb] in Hd; apply andb_prop in Hd as [_ Hd]; apply andb_prop in Hd; tauto).
+    rewrite (digit_not_align e He). reflexivity. }
+  rewrite Hr1. cbn [bind]. cbn beta iota. cbn [is_anone is_empty negb andb].
+  change (at_ (d :: ds') 0) with (Some d). cbn [bind]. rewrite Had. cbn beta iota. cbn [is_anone]. rewrite Hti. reflexivity.
+Qed.
